@@ -348,6 +348,21 @@ func init() {
 		msg := in.sprintf(in.mustConcStr(args[0], "format"), args[1].(Slice))
 		return in.newError(msg)
 	}
+	cmpBytes := func(in *Interp, fr *frame, call *ssa.CallCommon, args []Value) Value {
+		a, b := in.bytesAsStr(args[0]), in.bytesAsStr(args[1])
+		c := in.Ctx
+		lt, eq := in.strLt(a, b), in.strEq(a, b)
+		return c.Ite(lt, c.BV(64, ^uint64(0)), c.Ite(eq, c.BV(64, 0), c.BV(64, 1)))
+	}
+	intrinsics["bytes.Compare"] = cmpBytes
+	intrinsics["internal/bytealg.Compare"] = cmpBytes
+	intrinsics["strings.Compare"] = cmpBytes
+	intrinsics["internal/bytealg.CompareString"] = cmpBytes
+	eqBytes := func(in *Interp, fr *frame, call *ssa.CallCommon, args []Value) Value {
+		return in.strEq(in.bytesAsStr(args[0]), in.bytesAsStr(args[1]))
+	}
+	intrinsics["bytes.Equal"] = eqBytes
+	intrinsics["internal/bytealg.Equal"] = eqBytes
 	intrinsics["math/bits.Mul64"] = func(in *Interp, fr *frame, call *ssa.CallCommon, args []Value) Value {
 		a, b := term(args[0]), term(args[1])
 		return Tuple{in.Ctx.Bin(sym.OpMulHi, a, b), in.Ctx.Bin(sym.OpMul, a, b)}
@@ -668,4 +683,23 @@ func hexOf(b []byte) string {
 		out = append(out, d[c>>4], d[c&15])
 	}
 	return string(out)
+}
+
+// bytesAsStr views a []byte (or string) value as a Str.
+func (in *Interp) bytesAsStr(v Value) Str {
+	switch x := v.(type) {
+	case Str:
+		return x
+	case Slice:
+		if x.JSON != nil {
+			in.unsupported("byte comparison on JSON text")
+		}
+		bs := make([]*sym.Term, x.Len)
+		for i := 0; i < x.Len; i++ {
+			bs[i] = term(x.Back[i])
+		}
+		return in.mkStr(bs)
+	}
+	in.unsupported("bytesAsStr of %T", v)
+	return Str{}
 }
